@@ -473,6 +473,36 @@ def run_laws(task):
                                      "the [delta] section gives %r" % (env["git_config_parameters"], label, diff[0],
                                                                       got.get(diff[0]), key, v, ref.get(diff[0])),
                                      b0 + ["--config=" + cf], env)
+            # ... in the form git itself writes the variable in (sq_quote_buf: a quote is '\'', an exclamation mark
+            # '\!'), for a key given without a value (`git -c delta.navigate`: true), for keys in any case, and with
+            # other people's entries before, between and after
+            def sq(t):
+                return "'" + t.replace("'", "'\\''").replace("!", "'\\!'") + "'"
+            for key, v in (("file-added-label", "it's new!"), ("file-modified-label", "'"), ("file-renamed-label", "a'b'c"),
+                           ("right-arrow", "!"), ("navigate", None), ("side-by-side", None), ("line-numbers", None),
+                           ("Navigate", "true"), ("SIDE-BY-SIDE", "true"), ("file-Added-Label", "Q"),
+                           ("hunk-label", "a=b"), ("hunk-label", "=")):
+                with open(cfg2, "w") as f:
+                    f.write("[delta]\n    %s%s\n" % (key.lower(), "" if v is None else ' = "%s"' % v))
+                b0 = ["--paging=never", "--detect-dark-light=never", "--dark"]
+                ref = sc(b0 + ["--config=" + cfg2])
+                with open(cfg3, "w") as f:
+                    f.write("[delta]\n    %s = %s\n" % (key.lower(), "false" if v in (None, "true") else "zzz"))
+                for fi, item in enumerate(("'delta.%s%s'" % (key, "" if v is None else "=" + v.replace("'", "'\\''").replace("!", "'\\!'")),
+                                           sq("delta." + key) + "=" + ("" if v is None else sq(v)))):
+                    for around in ("%s", "'user.name'='it'\\''s me' %s", "%s 'alias.x'=''\\!'echo'", "'core.pager'= %s 'a.b'='delta.navigate=false'"):
+                        env = {"git_config_parameters": around % item}
+                        for label, cf in (("empty file", cfg), ("file says otherwise", cfg3)):
+                            got = sc(b0 + ["--config=" + cf], env)
+                            n += 1
+                            distinct.add((key, v, fi, around, label))
+                            diff = sorted(k for k in ref if ref.get(k) != got.get(k))
+                            if diff:
+                                note("gcp-git-spelling-not-honoured:" + ("no-value" if v is None else "case" if key != key.lower()
+                                                                          else "quoted"),
+                                     "GIT_CONFIG_PARAMETERS %s (%s) gives %s = %r; `%s%s` in the [delta] section gives %r"
+                                     % (env["git_config_parameters"], label, diff[0], got.get(diff[0]), key.lower(),
+                                        "" if v is None else " = " + v, ref.get(diff[0])), b0 + ["--config=" + cf], env)
         elif which == "reference" and cfgmode == "config":
             # a style option whose value names another key of the [delta] section (`plus-style = my-own-style`) has the
             # value of that key: the effective value comes from the gitconfig source all the same
